@@ -380,3 +380,77 @@ def matches(q, d):
 
 def expected_keys(q, live):
     return set(k for k, d in live.items() if matches(q, d))
+
+
+# ----------------------------------------------------------------------
+# grouped (parent/child) corpora and nested queries
+# ----------------------------------------------------------------------
+
+def gen_group_history(rng, ngroups=(2, 12), nseg=(1, 3)):
+    """Documents come in groups: a parent (k contains the token 'parent') followed by 0..4 children.
+    Groups never span commits. Deletions remove whole groups or single children (never a parent alone)."""
+    groups = []
+    key = 0
+    for _ in range(rng.randint(*ngroups)):
+        g = []
+        p = gen_doc(rng, key, sparse=0.0)
+        p["k"] = "parent " + rng.choice(KVOCAB)
+        key += 1
+        g.append(p)
+        for _ in range(rng.choice([0, 1, 1, 2, 3, 4])):
+            c = gen_doc(rng, key, sparse=0.0)
+            c["k"] = rng.choice(KVOCAB)
+            key += 1
+            g.append(c)
+        groups.append(g)
+    segs = min(rng.randint(*nseg), len(groups))
+    cuts = sorted(rng.sample(range(1, len(groups)), segs - 1)) if segs > 1 else []
+    commits, prev = [], 0
+    for c in cuts + [len(groups)]:
+        commits.append([d for g in groups[prev:c] for d in g])
+        prev = c
+    deletes = []
+    mode = rng.choice(["none", "none", "children", "groups"])
+    if mode == "children":
+        for g in groups:
+            for c in g[1:]:
+                if rng.random() < 0.3:
+                    deletes.append(c["id"])
+    elif mode == "groups":
+        for g in groups:
+            if rng.random() < 0.25:
+                deletes.extend(d["id"] for d in g)
+    return {"commits": commits, "deletes": deletes, "blocklimit": rng.choice([2, 4, 128]),
+            "storage": rng.choice(["ram", "ram", "file"]), "groups": [[d["id"] for d in g] for g in groups]}
+
+
+def gen_nested_query(rng):
+    from whoosh import query
+    parents = query.Term("k", "parent")
+    r = rng.random()
+    if r < 0.5:
+        child = rng.choice([query.Term("t", zipf_choice(rng, VOCAB)), query.Term("k", rng.choice(KVOCAB)),
+                            query.Or([query.Term("t", "alfa"), query.Term("t", "bravo")]), query.NumericRange("n", -2, 3)])
+        return query.NestedParent(parents, child)
+    wanted = rng.choice([query.And([parents, query.Term("k", rng.choice(KVOCAB))]),
+                         query.And([parents, query.Term("t", zipf_choice(rng, VOCAB))]), parents])
+    return query.NestedChildren(parents, wanted)
+
+
+def nested_expected(q, history, live):
+    """Set of keys a NestedParent / NestedChildren query over the grouped corpus must return.
+    NestedParent(P, C): the parent of every live document matching C (a matching parent is its own parent).
+    NestedChildren(P, W): the live children of every live parent matching W."""
+    from whoosh import query
+    out = set()
+    for g in history["groups"]:
+        pkey = g[0]
+        if isinstance(q, query.NestedParent):
+            if pkey not in live:
+                continue
+            if any(k in live and matches(q.child, live[k]) for k in g):
+                out.add(pkey)
+        else:
+            if pkey in live and matches(q.child, live[pkey]):
+                out.update(k for k in g[1:] if k in live)
+    return out
